@@ -1286,6 +1286,28 @@ class Evaluator:
         if sn in ("min", "max", "clamp") and base.startswith("std::"):
             vs = [val(i) for i in range(len(args))]
             return ("fn", sn) + tuple(vs)
+        # ---- relational operators of std::array ([array.syn] -> [tab:container.opt]: == is std::equal, < is
+        #      std::lexicographical_compare with operator< on the elements; > <= >= are defined from <)
+        m = re.match(r"std::operator(==|!=|<=|>=|<|>)$", f.get("qname", ""))
+        if m and len(args) == 2 and this_lv is None:
+            a, b = val(0), val(1)
+            if isinstance(a, Obj) and isinstance(b, Obj) and a.type.startswith("std::array<") and a.type == b.type:
+                xs, ys = a.f["_M_elems"].items, b.f["_M_elems"].items
+
+                def eq():
+                    r = True
+                    for x, y in zip(xs, ys):
+                        r = b_and(r, self.compare("==", x, y))
+                    return r
+
+                def lt(xs, ys):
+                    r = False
+                    for x, y in reversed(list(zip(xs, ys))):
+                        r = gamma(self.compare("<", x, y), True, gamma(self.compare("<", y, x), False, r))
+                    return r
+                op = m.group(1)
+                return {"==": eq, "!=": lambda: b_not(eq()), "<": lambda: lt(xs, ys), ">": lambda: lt(ys, xs),
+                        "<=": lambda: b_not(lt(ys, xs)), ">=": lambda: b_not(lt(xs, ys))}[op]()
         # ---- std::array
         ptype = self.F.T(f["parent"]) if "parent" in f else ""
         if ptype.startswith("std::array<"):
